@@ -171,6 +171,9 @@ class ReadElementStatus(SCSICommand):
                 if _r["element_type"] == cls.ELEMENT_TYPE.IMPORT_EXPORT:
                     decode_bits(_d, cls._import_export_descriptor_bits, _rr)
                 _ed.append(_rr)
+                if _edl == 0:
+                    # malformed page: a zero descriptor length would never advance
+                    break
                 _d = _d[_edl:]
             _r.update({"element_descriptors": _ed})
             _esd.append(_r)
